@@ -84,6 +84,17 @@ def suppressed(spec, supps):
 
 
 def signed(score):
+    from fractions import Fraction
+    if isinstance(score, str):
+        m = re.fullmatch(r'([+\-])?(\d+(?:\.\d+)?(?:e-?\d+)?)(%)?', score)
+        v = Fraction(m.group(2)) if 'e' not in m.group(2) else Fraction(float(m.group(2)))
+        if m.group(3):
+            v /= 100
+        return -v if m.group(1) == '-' else v
+    return Fraction(repr(score)) if 'e' not in repr(score) else Fraction(score)
+
+
+def signed_float(score):
     if isinstance(score, str):
         m = re.fullmatch(r'([+\-])?(\d+(?:\.\d+)?(?:e-?\d+)?)(%)?', score)
         v = float(m.group(2))
@@ -98,7 +109,8 @@ def reference(specs, supps):
     eligible = [(key(s), i, s) for i, s in enumerate(specs)
                 if s['triggered'] and not s['muted'] and s['kind'] != 'Compliment' and not suppressed(s, supps)]
     correct = all(bool(s['correct']) for _, _, s in eligible)
-    total = 0
+    from fractions import Fraction
+    total = Fraction(0)
     for s in specs:
         if suppressed(s, supps) or s['unscored'] or s['score'] is None:
             continue
@@ -108,22 +120,24 @@ def reference(specs, supps):
     if not eligible:
         if hidden:
             return {'label': 'set_correct_no_errors', 'title': 'No Errors', 'message': 'No errors reported.',
-                    'correct': True, 'score': round(total, 2)}
+                    'correct': True, 'score': total}
         return {'label': 'set_correct_no_errors', 'title': 'Complete', 'message': 'Great work!', 'correct': True,
                 'score': 1}
     eligible.sort(key=lambda t: (t[0], t[1]))
     w = eligible[0][2]
     return {'label': w['label'], 'title': w['title'] or w['label'], 'message': w['message'], 'correct': correct,
-            'score': round(total, 2)}
+            'score': total}
 
 
 CATS = DOC_ORDER + ['style', 'system', 'complete', 'Syntax', 'RUNTIME', 'custom', None]
 PRIOS = [None, None, None, 'high', 'low', 'medium', 'HIGH', 'parser', 'analyzer', 'verifier', 'syntax', 'lowest',
          'highest', 'instructor', 'weird']
 KINDS = [None, 'Mistake', 'Compliment', 'Instructional', 'Hint', 'Result']
-SCORES = [None, None, 1, 0.5, 0.25, '+10%', '10%', '-5%', '+0.2', '-0.1', 0.1, 2, '50%', 1e-05]
+SCORES = [None, None, 1, 0.5, 0.25, '+10%', '10%', '-5%', '+0.2', '-0.1', 0.1, 2, '50%', 1e-05, '2.5%', '0.4%',
+          '+12.5%', '-0.5%', 0.125, '33.3%']
 LABELS = ['a', 'b', 'c', 'A', 'set_correct_no_errors', 'x_y']
-FIELDSETS = [{}, {'k': 1}, {'k': 2}, {'k': 1, 'j': 'v'}, {'name': 'x'}]
+FIELDSETS = [{}, {'k': 1}, {'k': 2}, {'k': 1, 'j': 'v'}, {'name': 'x'}, {'k': 2, 'j': 'v'}, {'k': 1, 'j': 'w'},
+             {'j': 'v', 'k': 1}]
 
 
 def random_case(rnd, n_max=5):
@@ -133,9 +147,9 @@ def random_case(rnd, n_max=5):
                       'kind': rnd.choice(KINDS), 'muted': rnd.choice([None, False, False, True]),
                       'unscored': rnd.choice([None, False, False, True]),
                       'triggered': rnd.choice([True, True, False]),
-                      'valence': rnd.choice([None, -1, -1, 0, 1]), 'score': rnd.choice(SCORES),
-                      'correct': rnd.choice([None, False, False, True]),
-                      'title': rnd.choice([None, 'T%d' % i]), 'message': 'm%d' % i,
+                      'valence': rnd.choice([None, -1, -1, 0, 1]), 'score': rnd.choice(SCORES + [None] * 8),
+                      'correct': rnd.choice([None, False, True, True, True]),
+                      'title': rnd.choice([None, 'T%d' % i]), 'message': rnd.choice(['m%d' % i, 'm%d' % i, 'm%d' % i, '']),
                       'else_message': rnd.choice([None, None, 'else%d' % i]),
                       'fields': dict(rnd.choice(FIELDSETS))})
     supps = []
@@ -200,12 +214,74 @@ def compare(final, want, prop):
         if final.success is not final.correct:
             diffs.append('success != correct')
     if prop in ('C03', 'all'):
-        if abs(float(final.score) - float(want['score'])) > 1e-9:
-            diffs.append('score: got %r want %r' % (final.score, want['score']))
+        w = want['score']
+        # exact rational sum; a float sum that lands within 1e-9 of a rounding boundary may round either way
+        ok = final.score in (round(float(w) - 1e-9, 2), round(float(w) + 1e-9, 2), round(float(w), 2)) \
+            if not isinstance(w, int) else float(final.score) == float(w)
+        if not ok:
+            diffs.append('score: got %r want %r' % (final.score, float(w)))
     return diffs
 
 
+def ref_parse(text):
+    """reading of a score string, typed from the C03 statement: optional '!' marks (odd = inverted),
+    optional sign, a decimal number, optional '%' (= /100)"""
+    m = re.fullmatch(r'(!*)([+\-])?(\d+(?:\.\d*)?|\.\d+)(%)?', text)
+    if not m:
+        return None
+    v = float(m.group(3))
+    if m.group(4):
+        v = v / 100.0
+    return (len(m.group(1)) % 2 == 1, m.group(2), v)
+
+
+def bounded_score(arg):
+    """B-score: Score.parse / to_percent_string / add_to_current on every string of a small alphabet"""
+    from pedal.core.scoring import Score
+    L = 4 if arg.get('tier') == 'quick' else 6
+    alphabet = '!+-05.%2'
+    failures, samples = [], []
+    evaluations = 0
+    distinct = set()
+    for n in range(1, L + 1):
+        for tup in itertools.product(alphabet, repeat=n):
+            text = ''.join(tup)
+            want = ref_parse(text)
+            if want is None:
+                continue
+            evaluations += 1
+            distinct.add((want[0], want[1], '%' in text, '.' in text))
+            try:
+                sc = Score.parse(text)
+                got = (sc.invert, sc.operator, sc.value)
+            except Exception as e:
+                got = ('raised', type(e).__name__, None)
+            ok = got[0] == want[0] and got[1] == want[1] and got[2] is not None and abs(got[2] - want[2]) < 1e-12
+            if ok:
+                # the axioms the merge/finalize contracts assume about '!' and about totals
+                inv = Score.parse('!' + text)
+                ok = inv.invert == (not want[0]) and inv.operator == want[1] and abs(inv.value - want[2]) < 1e-12
+                cur = sc.add_to_current(1.0)
+                exp = 1.0 + (0 if want[0] else (-want[2] if want[1] == '-' else want[2]))
+                ok = ok and abs(cur - exp) < 1e-12
+            if len(samples) < 3 and '%' in text:
+                samples.append({'text': text, 'reading': want})
+            if not ok:
+                failures.append({'id': 'score_parse', 'canon': 'Score.parse(%r)' % text if len(failures) < 3 else 'Score.parse',
+                                 'detail': 'Score.parse(%r) read as %r, statement reads it as %r' % (text, got, want),
+                                 'text': text})
+    return {'name': 'B-score', 'bound': 'every string of length <= %d over %r that the statement\'s score grammar accepts' % (L, alphabet),
+            'evaluations': evaluations, 'distinct_nontrivial': len(distinct), 'exhaustive': True,
+            'rule': 'distinct = (inverted, operator, percent?, decimal point?)', 'samples': samples, 'failures': failures}
+
+
 def bounded(arg):
+    if arg.get('prop') == 'C03':
+        return [bounded_resolve(arg), bounded_score(arg)]
+    return bounded_resolve(arg)
+
+
+def bounded_resolve(arg):
     prop = arg.get('prop', 'all')
     n = 400 if arg.get('tier') == 'quick' else 6000
     seed = arg.get('seed', 0)
@@ -272,17 +348,21 @@ def replay_merge(case, where):
     clause = case['clause']
     tried = 0
     cats = [None, 'runtime', 'Syntax', 'complete', 'custom']
-    for cat, label, fields, supp, muted, kind, trig, score, valence, correct in itertools.product(
-            cats, ['a', 'A'], [{}, {'k': 1}],
-            [None, ('cat',), ('cat', 'a'), ('cat', 'a', {'k': 1}), (None, 'a'), (None, 'a', {'k': 1}), (None, 'a', {'k': 2})],
-            [None, True], [None, 'Compliment', 'Instructional'], [True, False], [None, 1, '+10%'], [None, -1, 1],
-            [None, True, False]):
+    inner = clause.startswith(('loop', 'cut', 'frame', 'call')) or case.get('undecided')
+    top = ['considered', 'suppressed_skipped', 'message_installed', 'message_kept', 'correct_updated', 'correct_kept',
+           'success_is_correct']
+    for cat, label, fields, supp, muted, kind, trig, score, valence, correct, msg in itertools.product(
+            cats, ['a', 'A'], [{}, {'k': 1}, {'k': 2, 'j': 'v'}, {'k': 1, 'j': 'w'}],
+            [None, ('cat',), ('cat', 'a'), ('cat', 'a', {'k': 1}), (None, 'a'), (None, 'a', {'k': 1}), (None, 'a', {'k': 2}),
+             (None, 'a', {'k': 1, 'j': 'v'}), ('cat', 'a', {'k': 1, 'j': 'v'})],
+            [None, True], [None, 'Compliment', 'Instructional'], [True, False], [None, '+10%'], [None, -1],
+            [None, True, False], ['m', '']):
         report = Report()
         if supp is not None:
             scat = (cat or 'runtime') if supp[0] == 'cat' else None
             report.suppress(scat, *(supp[1:] if len(supp) > 1 else (True,)))
         try:
-            fb = _mk_feedback(report, label=label, category=cat, message='m', fields=dict(fields), muted=muted,
+            fb = _mk_feedback(report, label=label, category=cat, message=msg, fields=dict(fields), muted=muted,
                               kind=kind, activate=trig, score=score, valence=valence, correct=correct)
         except Exception:
             continue
@@ -303,11 +383,26 @@ def replay_merge(case, where):
         elig = (not is_supp) and trig and not muted and kind != 'Compliment'
         install = elig and before[0] is None
         bad = None
+        for clause in ([case['clause']] if not inner else top):
+            bad = _merge_clause(clause, final, before, fb, result, is_supp, elig, install, msg, label, cat, correct)
+            if bad:
+                break
+        if bad:
+            return {'confirmed': True, 'canon': 'merge.%s: %s' % (clause, bad),
+                    'input': {'category': cat, 'label': label, 'fields': fields, 'suppress': supp, 'muted': muted,
+                              'kind': kind, 'activate': trig, 'correct': correct, 'message': msg},
+                    'observed': {'message': final.message, 'label': final.label, 'correct': final.correct,
+                                 'merge_returned': repr(result)}}
+    return {'confirmed': False, 'note': 'no failing input among %d structured merge inputs' % tried}
+
+
+def _merge_clause(clause, final, before, fb, result, is_supp, elig, install, msg, label, cat, correct):
+        bad = None
         if clause == 'considered' and final.considered != before[5] + [fb]:
             bad = 'considered list'
         if clause == 'suppressed_skipped' and is_supp and result is not None:
             bad = 'suppressed feedback was used'
-        if clause == 'message_installed' and install and (final.message, final.label, final.category) != ('m', label, cat):
+        if clause == 'message_installed' and install and (final.message, final.label, final.category) != (msg, label, cat):
             bad = 'eligible feedback not installed'
         if clause == 'message_kept' and not install and (final.message, final.label, final.category, final.title) != before[:4]:
             bad = 'ineligible feedback changed the message'
@@ -317,18 +412,15 @@ def replay_merge(case, where):
             bad = 'ineligible feedback changed correctness'
         if clause == 'success_is_correct' and elig and final.success != final.correct:
             bad = 'success differs from correct'
-        if bad:
-            return {'confirmed': True, 'canon': 'merge.%s: %s' % (clause, bad),
-                    'input': {'category': cat, 'label': label, 'fields': fields, 'suppress': supp, 'muted': muted,
-                              'kind': kind, 'activate': trig, 'correct': correct},
-                    'observed': {'message': final.message, 'label': final.label, 'correct': final.correct}}
-    return {'confirmed': False, 'note': 'no failing input among %d structured merge inputs' % tried}
+        return bad
 
 
 def _ref_suppressed(cat, label, fields, supp):
     if supp is None:
         return False
     if supp[0] == 'cat':
+        if cat is None:
+            return False          # the suppression names 'runtime'; a category-less feedback is 'uncategorized'
         if len(supp) == 1:
             return True
         if supp[1].lower() != label.lower():
